@@ -653,14 +653,17 @@ func (e *OpEngine) DataInstances(want func(string) bool, b DataBounds) []*DataCa
 	thr0, thr1 := e.thresholdShapes(0), e.thresholdShapes(1)
 	thrL := e.largeThresholdShapes()
 	thr0L := append(append([][]int{}, thr0...), thrL...)
+	// element-wise drivers walk the nesting recursively: a row offset that is only right up to rank 2 (index within the
+	// parent instead of the overall row number) shows from rank 3 on, with an outer extent above 1
+	deepUnary := [][]int{{2, 2, 2}, {2, 1, 2, 2}, {1, 2, 2, 1, 2}}
 	for _, n := range pointwiseUnary {
 		small := DataBounds{MaxRank: 2, Sizes: []int{1, 2}, MaxElts: 4}
-		unary(n, append(shapesUpTo(small, 0), thr0L...), nil, false)
+		unary(n, append(append(shapesUpTo(small, 0), deepUnary...), thr0L...), nil, false)
 	}
-	unary("Scale", append(shapesUpTo(DataBounds{MaxRank: 2, Sizes: []int{1, 2}, MaxElts: 4}, 0), thr0L...), func(e *OpEngine, d []int) [][]interp.Value {
+	unary("Scale", append(append(shapesUpTo(DataBounds{MaxRank: 2, Sizes: []int{1, 2}, MaxElts: 4}, 0), deep...), thr0L...), func(e *OpEngine, d []int) [][]interp.Value {
 		return [][]interp.Value{{interp.FloatV{E: sym.SymE("c")}}}
 	}, false)
-	unary("Pow", shapesUpTo(DataBounds{MaxRank: 2, Sizes: []int{1, 2}, MaxElts: 4}, 0), func(e *OpEngine, d []int) [][]interp.Value {
+	unary("Pow", append(shapesUpTo(DataBounds{MaxRank: 2, Sizes: []int{1, 2}, MaxElts: 4}, 0), deepUnary...), func(e *OpEngine, d []int) [][]interp.Value {
 		return [][]interp.Value{{interp.FloatV{E: sym.SymE("c")}}}
 	}, false)
 	thrS := append(append([][]int{}, thr0...), thrL...) // shapes beyond every harvested constant, for the structural operations
@@ -1077,6 +1080,7 @@ func (e *OpEngine) DataInstances(want func(string) bool, b DataBounds) []*DataCa
 			thrDot = append(thrDot, [2][]int{{c + 1, 1}, {c + 1, 1}}, [2][]int{{c + 1}, {c + 1}})
 		}
 	}
+	bpairs = append(bpairs, [2][]int{{2, 2, 2}, {2, 2, 2}}, [2][]int{{2, 1, 2, 2}, {2, 1, 2, 2}})
 	for _, n := range []string{"Add", "Sub", "Mul", "Div"} {
 		binary(n, bpairs, false, nil)
 	}
